@@ -19,6 +19,7 @@ type obs struct {
 	batches [][]string // FindInBatches only
 	nums    []int      // callback batch numbers
 	cbRA    []int64    // RowsAffected seen inside each callback
+	runaway bool       // FindInBatches was stopped by the harness after more callbacks than the table has rows + 3
 	prim    string     // primitive destination value
 	tx      *gorm.DB   // the handle the finisher returned (nil for Rows)
 	root    *gorm.DB   // the plain gorm handle of the environment (ScanRows)
@@ -58,6 +59,8 @@ const (
 
 const arrayLen = 16
 
+var errRunaway = errors.New("verif: FindInBatches stopped by the harness (more batches than rows + 3)")
+
 func normVal(v interface{}) string {
 	rv := reflect.ValueOf(v)
 	for rv.IsValid() && (rv.Kind() == reflect.Ptr || rv.Kind() == reflect.Interface) {
@@ -82,8 +85,8 @@ func normVal(v interface{}) string {
 }
 
 func mapRow(m map[string]interface{}) string {
-	s := fmt.Sprintf("%s|%s|%s|%s", normVal(m["id"]), normVal(m["a"]), normVal(m["b"]), normVal(m["c"]))
-	if len(m) != 4 {
+	s := fmt.Sprintf("%s|%s|%s|%s|%s|%s", normVal(m["id"]), normVal(m["a"]), normVal(m["b"]), normVal(m["c"]), normVal(m["l"]), normVal(m["p"]))
+	if len(m) != 6 {
 		s += fmt.Sprintf(" (map has %d keys)", len(m))
 	}
 	return s
@@ -103,6 +106,7 @@ func projPartial(it Item) string { return fmt.Sprintf("%d|%s", it.ID, it.B) }
 func projID(it Item) string      { return fmt.Sprint(it.ID) }
 func projA(it Item) string       { return fmt.Sprint(it.A) }
 func projB(it Item) string       { return it.B }
+func projL(it Item) string       { return labelsText(it.L) }
 func projC(it Item) string {
 	if it.C == nil {
 		return "NULL"
@@ -285,6 +289,12 @@ var paths = []pathDef{
 		o.ra, o.err = tx.RowsAffected, tx.Error
 		o.tx = tx
 	}},
+	{Name: `Model.Pluck("l", &[]string)`, Root: rootModel, Kind: kMulti, Proj: projL, Run: func(q *gorm.DB, c Chain, _ int, o *obs) {
+		var d []string
+		tx := q.Pluck("l", &d) // raw stored text of the serialized column
+		o.rows, o.ra, o.err = append([]string{}, d...), tx.RowsAffected, tx.Error
+		o.tx = tx
+	}},
 	{Name: `Model.Pluck("c", &[]sql.NullInt64)`, Root: rootModel, Kind: kMulti, Proj: projC, Run: func(q *gorm.DB, c Chain, _ int, o *obs) {
 		var d []sql.NullInt64
 		tx := q.Pluck("c", &d)
@@ -458,6 +468,10 @@ var paths = []pathDef{
 			o.batches = append(o.batches, rowKeys(d))
 			o.nums = append(o.nums, n)
 			o.cbRA = append(o.cbRA, tx.RowsAffected)
+			if len(o.batches) > c.N+3 {
+				o.runaway = true // hard cap: a correct run has at most N callbacks
+				return errRunaway
+			}
 			if o.hook != nil {
 				o.hook()
 			}
@@ -480,6 +494,10 @@ var paths = []pathDef{
 			o.batches = append(o.batches, b)
 			o.nums = append(o.nums, n)
 			o.cbRA = append(o.cbRA, tx.RowsAffected)
+			if len(o.batches) > c.N+3 {
+				o.runaway = true // hard cap: a correct run has at most N callbacks
+				return errRunaway
+			}
 			if o.hook != nil {
 				o.hook()
 			}
@@ -531,7 +549,7 @@ func show(rows []string) string {
 
 func project(items []Item, proj func(Item) string) []string {
 	if proj == nil {
-		return rowKeys(items)
+		proj = expKey
 	}
 	out := make([]string, len(items))
 	for i, it := range items {
@@ -558,7 +576,7 @@ func verdict(p pathDef, c Chain, ex *expect, batch int, o obs, refFind []string,
 				want = want[:p.TruncAt]
 			}
 			for len(want) < p.PadTo {
-				want = append(want, rowKey(Item{}))
+				want = append(want, zeroKeyOf)
 			}
 		}
 		if o.err != nil {
@@ -657,7 +675,11 @@ func verdict(p pathDef, c Chain, ex *expect, batch int, o obs, refFind []string,
 			}
 		}
 	case kFIB:
-		want := rowKeys(window)
+		want := project(window, nil)
+		if o.runaway {
+			failf("FindInBatches does not terminate / repeats rows", "stopped after %d callbacks on a table of %d rows\nexpected %s\nbatch sizes %v", len(o.batches), c.N, show(want), batchShape(o.batches))
+			return
+		}
 		if o.err != nil {
 			failf("FindInBatches returned an error", "err=%v", o.err)
 			return
